@@ -230,6 +230,7 @@ def c09(run):
     r7_binary.run_r7(run, helpers=True, dunders=False)
     r8_accessors.run_r8(run)
     r8_accessors.check_accessor_slots(run)
+    r8_accessors.check_element_slices(run, [k for k in r8_accessors.ACCESSORS if k.startswith('twist:SMTwist.')])
     if r8_accessors.check_zip_lengths(run, [f for f in prog.analysed_functions() if not f.module.short.startswith(('base/', 'stdlib/'))
                                             and f.module.short != 'timing']) < 6:
         run.error('R8z: fewer than 6 two-operand zip pairings found (anchor of the length rule not found in the current source)')
@@ -360,6 +361,7 @@ def c15(run):
     r10_args.check_broadcast_stores(run, prog.analysed_functions())
     r10_args.check_none_default_tests(run, prog.analysed_functions())
     r10_args.check_none_belief(run, [f for f in prog.analysed_functions() if f.module.short not in ('base/animate', 'timing', 'stdlib/collections', 'base/graphics')])
+    r10_args.check_getvector_contract(run)
     # the arms of a form split (one vector / a list of vectors, one value / many) forward the same options to the same kernel
     for f in prog.analysed_functions():
         if f.module.short not in ('base/animate', 'timing', 'stdlib/collections', 'base/graphics'):
@@ -498,6 +500,10 @@ def _scope_rules(run, pid, r1=True, r2=True, r9=True, generic=True):
         r10_args.check_recursion_options(run, [f for f in fs if f.key not in seen])
         r10_args.check_none_default_tests(run, [f for f in fs if f.key not in seen])
         r10_args.check_none_belief(run, [f for f in fs if f.key not in seen])
+        if not run.extra.get('_getvector_done'):
+            # the normaliser root every scope leans on: conversion dtype, default, length test before every value return
+            run.extra['_getvector_done'] = True
+            r10_args.check_getvector_contract(run)
         for f in fs:
             if f.key not in seen:
                 r7_binary.check_duplicates(run, f)           # x - x, x == x, atan2(a, a), a paired loop variable that is never used
@@ -792,6 +798,8 @@ def c13(run):
         ('pose3d:SE3.Delta', 'pose from differential motion', ['cls(delta2tr(d), check=False)'], 'return'),
         ('twist:Twist3.Ad', 'adjoint through the exponential', ['self.SE3().Ad()'], 'return'),
     ], rule='R16')
+    # Ad(T^-1) = Ad(T)^-1 is stated with the group inverse: X.inv() and X ** -n are closed (R15c on the group operations)
+    r15_closed.check_unchecked_sites(run, only=('inv', '__pow__'))
     fs13 = _scope_rules(run, 'C13')
     r11_symbolic.check_allocations(run, only={f.key for f in fs13}, floor=4)
     run.floor('R16', 20)
@@ -811,6 +819,7 @@ def c14(run):
     r16_tables.tables_c14(run)
     r16_tables._frame(run, 'base/transforms3d:trnorm', o='P0[:3, 1]', a='P0[:3, 2]', ret_plain=False)
     r16_tables._frame2(run)
+    r4_predicates.run_vector_predicates(run)        # unittwist / unit decide their branch with iszerovec: the predicate has its definition
     r15_closed.check_unitquaternion_ctor(run)
     _scope_rules(run, 'C14')
     run.floor('R16', 25)
@@ -827,6 +836,8 @@ def c14(run):
 def c18(run):
     r16_tables.tables_c18(run)
     prog = run.prog
+    r4_predicates.run_vector_predicates(run)        # isprismatic / isrevolute / unit are decided by iszerovec and isunitvec
+    r8_accessors.check_element_slices(run, ['twist:SMTwist.isprismatic', 'twist:SMTwist.isrevolute', 'twist:SMTwist.isunit'])
     r10_args.run_r10(run, [prog.func('twist:Twist3.exp'), prog.func('twist:Twist2.exp'), prog.func('twist:Twist3.Rx'),
                            prog.func('twist:Twist3.Ry'), prog.func('twist:Twist3.Rz')])
     for k in ('twist:SMTwist.isprismatic', 'twist:SMTwist.isrevolute', 'twist:SMTwist.isunit', 'twist:Twist3.se3', 'twist:Twist2.se2',
